@@ -653,8 +653,10 @@ class dir_archive(archive):
             os.renames(self._getdir(_key), self._getdir(key))
 #       except TypeError: #XXX: catch key that isn't converted to safe filename
 #           "error in populating directory for '%s'" % str(key)
-        except OSError: #XXX: if rename fails, may need cleanup (_rmdir ?)
-            "error in populating directory for '%s'" % str(key)
+        except OSError: # the rename failed, so remove the temporary directory
+            self._rmdir(_key)
+            # and fail, unless another writer has stored this key meanwhile
+            if not os.path.exists(self._getdir(key)): raise
 
     def _get_args(self):
         if self.__state__['serialized']:
